@@ -214,7 +214,8 @@ def main(argv=None):
         elif o.status == "inconclusive":
             incon.append(o)
     meta["known_reported"] = known_lines
-    write_evidence(prop, tier, seed, outs, time.time() - t0, meta)
+    if not a.only:
+        write_evidence(prop, tier, seed, outs, time.time() - t0, meta)
     seen_reasons = set()
     for o in outs:
         why = "" if o.status == "holds" else o.reason[:240]
